@@ -31,7 +31,11 @@ RULE = ("(a) probe sessions: 4..7 raw clients on a fresh ASan daemon (listeners 
         "close (also in mid-frame) and reconnect. (b) connection cycles through one daemon: Hello, pipelined double "
         "Hello, Hello whose reply is never read, no Hello, junk before Hello, kept / closed at once; every Hello name "
         "must start with ':' and must not have been issued or announced (NameOwnerChanged('',name)) before by this daemon "
-        "instance. distinct = (operation, message type, destination kind, forgery kind, junk-field shape, #receivers>0)")
+        "instance. distinct = (operation, message type, destination kind, forgery kind, junk-field shape, #receivers>0)"
+        " (d) rollover cycles: the same connection cycles on buses whose unique-name counters are started (hook H5, "
+        "DBUS_VERIF_NAME_COUNTER) 0..40 names before the minor number 2147483647 is used up, with majors 1, 2, 7, 1000, "
+        "2147483646 and random ones: names must stay fresh across that point (no name issued twice, none from the range the "
+        "counter had already passed) and the UBSan-built bus must get there without a report")
 
 BUS = b"org.freedesktop.DBus"
 BUS_PATH = b"/org/freedesktop/DBus"
@@ -106,7 +110,8 @@ class Base(object):
             del self.steps[:200]
 
     def start_daemon(self):
-        self.daemon = busproc.Daemon(self.b, self.rundir, busproc.make_config("@SOCK@"), name="s%d" % (self.sid % 100000))
+        self.daemon = busproc.Daemon(self.b, self.rundir, busproc.make_config("@SOCK@"), name="s%d" % (self.sid % 100000),
+                                     env=getattr(self, "daemon_env", None))
         if not self.daemon.started():
             raise RuntimeError("daemon did not start: " + self.daemon.stderr_text()[-400:])
 
@@ -1043,8 +1048,48 @@ class Cycles(Base):
 
 # ======================================================================================= orchestration
 
+class RolloverCycles(Cycles):
+    """Connection cycles on a bus whose unique-name counters (hook H5, DBUS_VERIF_NAME_COUNTER) start shortly before the
+    minor number is used up: the names must go on being fresh - ':M.2147483647' is followed by a name never issued
+    before - and the bus must get there without undefined behaviour (UBSan build)."""
+    MODE = "cycles-rollover"
+    INT_MAX = 2147483647
+
+    def __init__(self, b, rundir, rng, part, sid, ncycles):
+        Cycles.__init__(self, b, rundir, rng, part, sid, ncycles)
+        major = rng.choice([1, 1, 2, 7, 1000, self.INT_MAX - 1, rng.randint(1, self.INT_MAX - 1)])
+        # roughly half of the cycles issue a name: put the end of the minor number inside the run, at a random point
+        self.first = (major, self.INT_MAX - rng.randint(0, max(1, ncycles // 3)))
+        self.daemon_env = {"DBUS_VERIF_NAME_COUNTER": "%d.%d" % self.first}
+
+    def check_hello_name(self, name, how):
+        Cycles.check_hello_name(self, name, how)
+        # the hook defines the counter's past: every name below the starting pair counts as handed out before this run
+        try:
+            mj, mn = [int(x) for x in name[1:].split(b".")]
+        except (ValueError, AttributeError):
+            return
+        if (mj, mn) < self.first:
+            self.violation("unique-name-from-the-range-the-counter-had-passed",
+                           "Hello (%s) returned %s although the bus's name counter had already reached :%d.%d (hook H5): a name "
+                           "of that range may have been given to an earlier connection" % (how, name.decode("latin1"), self.first[0], self.first[1]))
+
+    def run(self):
+        Cycles.run(self)
+        majors = set()
+        for nm in self.ever:
+            mj = nm[1:].split(b".")[0]
+            majors.add(mj)
+        self.part.count("rollover-daemons")
+        if (b"%d" % self.first[0]) in majors and len(majors) >= 2:
+            self.part.count("rollover-daemons-that-passed-the-end-of-the-minor-number")
+            self.part.sig("rollover", self.first[0] in (1, 2, 7, 1000, self.INT_MAX - 1), len(majors))
+        if (b":%d.%d" % self.first) in self.ever:
+            self.part.count("rollover-hook-took-effect")
+
+
 def _make(mode, b, rundir, rng, part, sid, n):
-    return (Session if mode == "probes" else Cycles)(b, rundir, rng, part, sid, n)
+    return {"probes": Session, "cycles": Cycles, "cycles-rollover": RolloverCycles}[mode](b, rundir, rng, part, sid, n)
 
 
 def _run_one(b, rundir, seed, shard, i, part, mode, n):
@@ -1170,6 +1215,10 @@ def plan(tier, scale):
     order = list(range(cycle_daemons, 16)) + list(range(cycle_daemons)) if tier == "quick" else list(range(1, 16))
     for k in range(nsess):
         jobs[order[k % len(order)]].append(("probes", per))
+    # connection cycles across the end of the unique names' minor number (hook H5)
+    nro = max(1, int((8 if tier == "quick" else 64) * scale))
+    for k in range(nro):
+        jobs[(5 + k) % 16].append(("cycles-rollover", 120 if tier == "quick" else 400))
     nsd = max(1, int((32 if tier == "quick" else 600) * scale))
     for sshard in range(min(8, nsd)):
         jobs[15 - sshard].append(("sd-forward", max(1, nsd // 8)))
@@ -1227,6 +1276,8 @@ def run(tier, seed, replay=None, scale=1.0):
     r.require("op:disconnect", need(40))
     r.require("op:reconnect", need(20))
     r.require("sd-forward-cases", need(24))
+    r.require("rollover-daemons-that-passed-the-end-of-the-minor-number", need(6))
+    r.require("rollover-hook-took-effect", need(6))
     r.assumptions = ["which connections receive a probe is not judged here (C05/C07); only what arrives is",
                      "whether a connection that wrote before Hello is disconnected is recorded, not judged: the statement only "
                      "requires that nothing it wrote is routed",
